@@ -58,6 +58,11 @@ CHECKS = {
         text='LimitOK states bounds (everything entirely inside [start, stop] is returned, nothing entirely outside, order and feature fingerprints preserved, one common offset on reset) rather than one answer; TLC proves them for the model and evaluates them on the real outputs for all small tables x windows on the half-sample grid (either limit None) x reset x centring, and on recorded calls incl. 1-D / 2-D flatten lists.',
         design_ref='6/C18',
         note='window limits are on the half-sample grid with fs a power of two (or 1), so start*fs is exact.'),
+    'C16': dict(
+        technique=TECH + 'exhaustive small-scope stage machine (MC_Edges: features -> Label -> Recompute -> Relabel) with indexed conformance of the real recompute_edges chain, plus trace validation (Trace_Edges) of recompute_edges / Bycycle.recompute_edges on labelled tables of generated signals',
+        text='Edge cycles from label transitions, one-sided consistencies as exact rationals (either value in a one-cycle gap), everything else bit-identical, labels = rule on rank codes of the output table, Grows(old,new) and superset under lowered thresholds; TLC proves Grows / only-edges / one-sided >= two-sided for the model on all small tables, compares the real chain on each, and judges every recorded call (same / lowered / changed thresholds, functional and object API, both centrings).',
+        design_ref='6/C16',
+        note='one open known finding (F12: peak-centred tables without sample columns); exhaustive part: 4-5 cycles over a 2-level domain.'),
     'C17': dict(
         technique=TECH + 'exhaustive small-scope model checking (MC_Phase) over every valid cyclepoint placement with the real extrema_interpolated_phase judged on each, plus trace validation (Trace_Phase) on cyclepoints of generated signals',
         text='Phase model in exact quarter-turn rationals (anchors with extrema overriding midpoints, linear advance, wrap only at troughs, NaN outside the span); TLC proves the four statements of C17 for the model on every placement up to the bound and evaluates the same four statements on order-isomorphic rank codes of the real function\'s output for every placement and for recorded calls on generated cyclepoints (any boundary, first_extrema, with/without midpoints).',
